@@ -9,6 +9,7 @@ namespace Bardolph
 namespace Sim
 open Vm VmSteps Sem Gen
 
+variable {V : String → Prop}
 variable {img : Image} {K : Ctx}
 
 /-! ## `return` -/
@@ -116,7 +117,7 @@ theorem andThen_device_ne_ret {σ σ' : S} {g g' : State → State} {F : S → S
   · exact device_ne_ret h1
 
 /-- the statements without nested blocks never end with `return` -/
-theorem leaf_not_ret (f : Nat) (st : Stmt) (hst : FragStmt st) (σ σ' : S)
+theorem leaf_not_ret (f : Nat) (st : Stmt) (hst : FragStmt V st) (σ σ' : S)
     (h : execStmt (f + 1) st σ = (.ret, σ')) :
     (∃ c t e, st = .ite c t e) ∨ (∃ hd b, st = .repeat_ hd b) ∨ (∃ k ops, st = .action k ops) ∨
     (∃ v, st = .ret v) ∨ (∃ g ps as, st = .call g ps as) := by
@@ -212,33 +213,33 @@ theorem leaf_not_ret (f : Nat) (st : Stmt) (hst : FragStmt st) (σ σ' : S)
 
 /-! ### `return` from inside blocks, `if`, operands -/
 
-def StmtsRet (img : Image) (K : Ctx) (f : Nat) : Prop := ∀ st, FragStmt st → StmtRet img K st f
+def StmtsRet (V : String → Prop) (img : Image) (K : Ctx) (f : Nat) : Prop := ∀ st, FragStmt V st → StmtRet img K st f
 
-def BlockRet (img : Image) (K : Ctx) (f : Nat) : Prop :=
-  ∀ b, FragBlock b → ∀ (σ σ' : S) (s : State) (pc exit : Nat) (stk : Stk),
+def BlockRet (V : String → Prop) (img : Image) (K : Ctx) (f : Nat) : Prop :=
+  ∀ b, FragBlock V b → ∀ (σ σ' : S) (s : State) (pc exit : Nat) (stk : Stk),
     Sim K stk σ s → s.pc = (pc : Int) → CodeAt img pc (resolve (genBlock b) pc exit) →
     execBlock f b σ = (.ret, σ') → Exec img s (RetPost K σ')
 
-def OperandRet (img : Image) (K : Ctx) (f : Nat) : Prop :=
-  ∀ (k : ActKind) (op : Operand_), FragOperand op →
+def OperandRet (V : String → Prop) (img : Image) (K : Ctx) (f : Nat) : Prop :=
+  ∀ (k : ActKind) (op : Operand_), FragOperand V op →
   ∀ (σ σ' : S) (s : State) (pc exit : Nat) (stk : Stk),
     Sim K stk σ s → s.pc = (pc : Int) →
     CodeAt img pc (resolve (genOperand op ++ ins [opcodeOf k]) pc exit) →
     execOperand f k op σ = (.ret, σ') → Exec img s (RetPost K σ')
 
-def OperandsRet (img : Image) (K : Ctx) (f : Nat) : Prop :=
-  ∀ (k : ActKind) (ops : Operands), FragOperands ops →
+def OperandsRet (V : String → Prop) (img : Image) (K : Ctx) (f : Nat) : Prop :=
+  ∀ (k : ActKind) (ops : Operands), FragOperands V ops →
   ∀ (σ σ' : S) (s : State) (pc exit : Nat) (stk : Stk),
     Sim K stk σ s → s.pc = (pc : Int) →
     CodeAt img pc (resolve (genOperands k ops) pc exit) →
     execOperands f k ops σ = (.ret, σ') → Exec img s (RetPost K σ')
 
-theorem block_ret_zero : BlockRet img K 0 := by
+theorem block_ret_zero : BlockRet V img K 0 := by
   intro b _ σ σ' s pc exit stk _ _ _ h
   simp [execBlock] at h
 
-theorem block_ret_step (f : Nat) (ihS : StmtsGoal img K f) (ihSR : StmtsRet img K f)
-    (ihBR : BlockRet img K f) : BlockRet img K (f + 1) := by
+theorem block_ret_step (f : Nat) (ihS : StmtsGoal V img K f) (ihSR : StmtsRet V img K f)
+    (ihBR : BlockRet V img K f) : BlockRet V img K (f + 1) := by
   intro b hb σ σ' s pc exit stk sim hpc hc h
   cases b with
   | nil => simp [execBlock] at h
@@ -255,11 +256,11 @@ theorem block_ret_step (f : Nat) (ihS : StmtsGoal img K f) (ihSR : StmtsRet img 
       exact ihBR rest hb.2 σ1 σ' t _ exit stk ht.2 ht.1 hcr hrest
     · exact ihSR st hb.1 σ σ' s pc exit stk sim hpc hc.left hst
 
-theorem operand_ret_zero : OperandRet img K 0 := by
+theorem operand_ret_zero : OperandRet V img K 0 := by
   intro k op _ σ σ' s pc exit stk _ _ _ h
   simp [execOperand] at h
 
-theorem operand_ret_step (f : Nat) (ihBR : BlockRet img K f) : OperandRet img K (f + 1) := by
+theorem operand_ret_step (f : Nat) (ihBR : BlockRet V img K f) : OperandRet V img K (f + 1) := by
   intro k op hop σ σ' s pc exit stk sim hpc hc h
   cases op with
   | light n =>
@@ -316,12 +317,12 @@ theorem operand_ret_step (f : Nat) (ihBR : BlockRet img K f) : OperandRet img K 
       · exact ihBR body hop s1 σ' t1 _ exit stk ht1.2 ht1.1 hcb hbody
     · exact (device_ne_ret h1).elim
 
-theorem operands_ret_zero : OperandsRet img K 0 := by
+theorem operands_ret_zero : OperandsRet V img K 0 := by
   intro k op _ σ σ' s pc exit stk _ _ _ h
   simp [execOperands] at h
 
-theorem operands_ret_step (f : Nat) (ihO : OperandGoal img K f) (ihOR : OperandRet img K f)
-    (ihOsR : OperandsRet img K f) : OperandsRet img K (f + 1) := by
+theorem operands_ret_step (f : Nat) (ihO : OperandGoal V img K f) (ihOR : OperandRet V img K f)
+    (ihOsR : OperandsRet V img K f) : OperandsRet V img K (f + 1) := by
   intro k ops hops σ σ' s pc exit stk sim hpc hc h
   cases ops with
   | nil => simp [execOperands] at h
@@ -357,8 +358,8 @@ theorem loopBody_ret {r : Outcome × S} {Kf : S → Outcome × S} {σ' : S}
   | ret => simp only [loopBody] at h; exact Or.inr h
   | _ => simp [loopBody] at h
 
-def WhileRet (img : Image) (K : Ctx) (f : Nat) : Prop :=
-  ∀ (c : Option Rv) (body : Block), CondOK c → FragBlock body →
+def WhileRet (V : String → Prop) (img : Image) (K : Ctx) (f : Nat) : Prop :=
+  ∀ (c : Option Rv) (body : Block), CondOK c → FragBlock V body →
   ∀ (σ σ' : S) (s : State) (top : Nat) (stk : Stk)
     (vars : List (LoopVar × Val)) (extra : List Val) (off : Int),
     Sim K (stk.inner vars extra) σ s → s.pc = (top : Int) →
@@ -369,12 +370,12 @@ def WhileRet (img : Image) (K : Ctx) (f : Nat) : Prop :=
     ((top + (testCode c).length + 1 + (genBlock body).length : Nat) : Int) + off = (top : Int) →
     execWhile f c body σ = (.ret, σ') → Exec img s (RetPost K σ')
 
-theorem while_ret_zero : WhileRet img K 0 := by
+theorem while_ret_zero : WhileRet V img K 0 := by
   intro c body _ _ σ σ' s top stk vars extra off _ _ _ _ h
   simp [execWhile] at h
 
-theorem while_ret_step (f : Nat) (ihB : BlockGoal img K f) (ihBR : BlockRet img K f)
-    (ihW : WhileRet img K f) : WhileRet img K (f + 1) := by
+theorem while_ret_step (f : Nat) (ihB : BlockGoal V img K f) (ihBR : BlockRet V img K f)
+    (ihW : WhileRet V img K f) : WhileRet V img K (f + 1) := by
   intro c body hcnd hb σ σ' s top stk vars extra off sim hpc hc hoff h
   rw [execWhile_succ] at h
   have hct := hc.left.left.left.left
@@ -404,8 +405,8 @@ theorem while_ret_step (f : Nat) (ihB : BlockGoal img K f) (ihBR : BlockRet img 
       exact ihW c body hcnd hb s2 σ' t3 top stk vars extra off ht3.2 ht3.1 hc hoff hrest
     · exact ihBR body hb s1 σ' t1 _ _ _ ht1.2 ht1.1 (cat hcb) hbody
 
-def CountRet (img : Image) (K : Ctx) (f : Nat) : Prop :=
-  ∀ (body : Block), FragBlock body → ∀ (lv : Option String) (ix : Option (String × Val))
+def CountRet (V : String → Prop) (img : Image) (K : Ctx) (f : Nat) : Prop :=
+  ∀ (body : Block), FragBlock V body → ∀ (lv : Option String) (ix : Option (String × Val))
     (names : List String) (σ σ' : S) (s : State) (top : Nat) (stk : Stk)
     (vars : List (LoopVar × Val)) (cnt : Val) (q : Rat) (fl : Bool) (off : Int),
     Sim K (stk.inner vars (pendOf lv names)) σ s → s.pc = (top : Int) →
@@ -421,12 +422,12 @@ def CountRet (img : Image) (K : Ctx) (f : Nat) : Prop :=
       (top : Int) →
     execPasses f (bindsOf lv names) ix body σ = (.ret, σ') → Exec img s (RetPost K σ')
 
-theorem count_ret_zero : CountRet img K 0 := by
+theorem count_ret_zero : CountRet V img K 0 := by
   intro body _ lv ix names σ σ' s top stk vars cnt q fl off _ _ _ _ _ _ _ _ h
   simp [execPasses] at h
 
-theorem count_ret_step (f : Nat) (ihB : BlockGoal img K f) (ihBR : BlockRet img K f)
-    (ihC : CountRet img K f) : CountRet img K (f + 1) := by
+theorem count_ret_step (f : Nat) (ihB : BlockGoal V img K f) (ihBR : BlockRet V img K f)
+    (ihC : CountRet V img K f) : CountRet V img K (f + 1) := by
   intro body hb lv ix names σ σ' s top stk vars cnt q fl off sim hpc hcnt hnum hlenq hincr hc hoff h
   have hct := hc.left.left.left.left
   have hcj := hc.left.left.left.right.head
@@ -474,20 +475,20 @@ theorem count_ret_step (f : Nat) (ihB : BlockGoal img K f) (ihBR : BlockRet img 
     · exact ihBR body hb _ σ' t1 _ _ _ ht1.2 ht1.1 (hcb.cast (by omega)) hbody
   | nil => simp [bindsOf, execPasses] at h
 
-def LoopRet (img : Image) (K : Ctx) (f : Nat) : Prop :=
-  ∀ (hd : LoopHdr) (body : Block), LoopHdrOK hd → FragBlock body →
+def LoopRet (V : String → Prop) (img : Image) (K : Ctx) (f : Nat) : Prop :=
+  ∀ (hd : LoopHdr) (body : Block), LoopHdrOK V hd → FragBlock V body →
   ∀ (σ σ' : S) (s : State) (pc exit : Nat) (stk : Stk),
     Sim K stk σ s → s.pc = (pc : Int) →
     CodeAt img pc (resolve (genLoop hd (genBlock body)) pc exit) →
     execLoop f hd body σ = (.ret, σ') → Exec img s (RetPost K σ')
 
-theorem loop_ret_zero : LoopRet img K 0 := by
+theorem loop_ret_zero : LoopRet V img K 0 := by
   intro hd body _ _ σ σ' s pc exit stk _ _ _ h
   simp [execLoop] at h
 
 
-theorem loop_while_ret (f : Nat) (ihW : WhileRet img K f) (c : Option Rv) (hcnd : CondOK c) (body : Block)
-    (hb : FragBlock body) (σ σ' : S) (s : State) (pc exit : Nat) (stk : Stk)
+theorem loop_while_ret (f : Nat) (ihW : WhileRet V img K f) (c : Option Rv) (hcnd : CondOK c) (body : Block)
+    (hb : FragBlock V body) (σ σ' : S) (s : State) (pc exit : Nat) (stk : Stk)
     (sim : Sim K stk σ s) (hpc : s.pc = (pc : Int))
     (hc : CodeAt img pc (resolve (assembleLoop [] (testCode c) [] (genBlock body) []) pc exit))
     (h : execWhile f c body σ = (.ret, σ')) : Exec img s (RetPost K σ') := by
@@ -511,8 +512,8 @@ theorem loop_while_ret (f : Nat) (ihW : WhileRet img K f) (c : Option Rv) (hcnd 
   exact ihW c body hcnd hb σ σ' t (pc + 1) stk [] [] _ ht.2 ht.1 hrest (by omega) h
 
 /-- `return` out of a counted loop -/
-theorem loop_counted_ret (f : Nat) (ihC : CountRet img K f) (pre : List Instr) (lv : Option String)
-    (ix : Option (String × Val)) (body : Block) (hb : FragBlock body) (names : List String)
+theorem loop_counted_ret (f : Nat) (ihC : CountRet V img K f) (pre : List Instr) (lv : Option String)
+    (ix : Option (String × Val)) (body : Block) (hb : FragBlock V body) (names : List String)
     (σ σ1 σ' : S) (s : State) (pc exit : Nat)
     (stk : Stk) (sim : Sim K stk σ s) (hpc : s.pc = (pc : Int))
     (hc : CodeAt img pc (resolve (assembleLoop pre counterTest (bodyPreOf lv) (genBlock body) (postOf ix))
@@ -529,8 +530,8 @@ theorem loop_counted_ret (f : Nat) (ihC : CountRet img K f) (pre : List Instr) (
   exact ihC body hb lv ix names σ1 σ' t' _ stk vars cnt q fl _ ht'.2 ht'.1 hcnt hnum hk hincr hrest
     (by omega) h
 
-theorem loop_count_ret (f : Nat) (ihC : CountRet img K f) (n : Rv) (hn : RvOK n) (body : Block)
-    (hb : FragBlock body) (σ σ' : S) (s : State) (pc exit : Nat) (stk : Stk)
+theorem loop_count_ret (f : Nat) (ihC : CountRet V img K f) (n : Rv) (hn : RvOK n) (body : Block)
+    (hb : FragBlock V body) (σ σ' : S) (s : State) (pc exit : Nat) (stk : Stk)
     (sim : Sim K stk σ s) (hpc : s.pc = (pc : Int))
     (hc : CodeAt img pc (resolve (genLoop (.count n) (genBlock body)) pc exit))
     (h : execLoop (f + 1) (.count n) body σ = (.ret, σ')) : Exec img s (RetPost K σ') := by
@@ -552,8 +553,8 @@ theorem loop_count_ret (f : Nat) (ihC : CountRet img K f) (n : Rv) (hn : RvOK n)
         (passes_replicate _).symm⟩
     · simp at h
 
-theorem loop_range_ret (f : Nat) (ihC : CountRet img K f) (v : String) (a b : Rv) (ha : RvOK a) (hbd : RvOK b)
-    (body : Block) (hb : FragBlock body) (σ σ' : S) (s : State) (pc exit : Nat)
+theorem loop_range_ret (f : Nat) (ihC : CountRet V img K f) (v : String) (a b : Rv) (ha : RvOK a) (hbd : RvOK b)
+    (body : Block) (hb : FragBlock V body) (σ σ' : S) (s : State) (pc exit : Nat)
     (stk : Stk) (sim : Sim K stk σ s) (hpc : s.pc = (pc : Int))
     (hc : CodeAt img pc (resolve (genLoop (.range v a b) (genBlock body)) pc exit))
     (h : execLoop (f + 1) (.range v a b) body σ = (.ret, σ')) : Exec img s (RetPost K σ') := by
@@ -599,8 +600,8 @@ theorem loop_range_ret (f : Nat) (ihC : CountRet img K f) (v : String) (a b : Rv
           exact hinc
       · simp at h
 
-theorem loop_with_ret (f : Nat) (ihC : CountRet img K f) (n : Rv) (hn : RvOK n) (wc : WithClause)
-    (hw : WithOK wc) (body : Block) (hb : FragBlock body) (σ σ' : S) (s : State)
+theorem loop_with_ret (f : Nat) (ihC : CountRet V img K f) (n : Rv) (hn : RvOK n) (wc : WithClause)
+    (hw : WithOK wc) (body : Block) (hb : FragBlock V body) (σ σ' : S) (s : State)
     (pc exit : Nat) (stk : Stk) (sim : Sim K stk σ s) (hpc : s.pc = (pc : Int))
     (hc : CodeAt img pc (resolve (assembleLoop (genRv n (.to counter) ++ withCode wc) counterTest []
       (genBlock body) (loopPost (some (withVarOf wc)))) pc exit))
@@ -647,8 +648,8 @@ theorem loop_with_ret (f : Nat) (ihC : CountRet img K f) (n : Rv) (hn : RvOK n) 
           exact hi2
 
 /-- `return` out of a loop over names -/
-theorem loop_names_ret (g : Nat) (ihC : CountRet img K g) (disc : List Instr) (lv : String)
-    (w : Option WithClause) (hw : OWithOK w) (body : Block) (hb : FragBlock body) (names : List String)
+theorem loop_names_ret (g : Nat) (ihC : CountRet V img K g) (disc : List Instr) (lv : String)
+    (w : Option WithClause) (hw : OWithOK w) (body : Block) (hb : FragBlock V body) (names : List String)
     (σ σd σ' : S) (s : State) (pc exit : Nat) (stk : Stk)
     (sim : Sim K stk σ s) (hpc : s.pc = (pc : Int))
     (hc : CodeAt img pc (resolve (assembleLoop ([.moveq (.int 0) counter] ++ disc ++ withClause w) counterTest
@@ -704,8 +705,8 @@ theorem loop_names_ret (g : Nat) (ihC : CountRet img K g) (disc : List Instr) (l
         subst hp'
         exact hi2
 
-theorem loop_ret_step (f : Nat) (ihW : WhileRet img K f) (ihC : CountRet img K f)
-    (ihC1 : ∀ g, g + 1 = f → CountRet img K g) : LoopRet img K (f + 1) := by
+theorem loop_ret_step (f : Nat) (ihW : WhileRet V img K f) (ihC : CountRet V img K f)
+    (ihC1 : ∀ g, g + 1 = f → CountRet V img K g) : LoopRet V img K (f + 1) := by
   intro hd body hhd hb σ σ' s pc exit stk sim hpc hc h
   cases hd with
   | forever =>
@@ -866,10 +867,10 @@ theorem bindRead_eq {stk : Stk} {un : List Val} {σ : S} {s : State} (h : SimU K
 
 /-- the routines of the script are compiled from bodies of the fragment and sit where the image's
 routine table says, each followed by its `END`; other names are not in the table -/
-def RoutinesAt (img : Image) (R : List (String × Sem.Routine)) : Prop :=
+def RoutinesAt (V : String → Prop) (img : Image) (R : List (String × Sem.Routine)) : Prop :=
   ∀ name, match R.find? (·.1 == name) with
     | some (_, rt) =>
-      FragBlock rt.body ∧ ∃ addr nm, img.routine? name = some addr ∧
+      FragBlock V rt.body ∧ ∃ addr nm, img.routine? name = some addr ∧
         CodeAt img addr (resolve (genBlock rt.body) addr (0 : Nat) ++ [.end_ nm])
     | none => img.routine? name = none
 
@@ -934,10 +935,10 @@ def calleeCtx (K : Ctx) (ret : Nat) (callerStack : List Frame) (callerEval : Lis
 
 /-- a call of a user routine with simple arguments: calling sequence, body (to its end or to a
 `return`, from any loop depth), back in the caller -/
-theorem call_user (f : Nat) (ihB : ∀ r st, BlockGoal img ⟨some (r, st), K.routines⟩ f)
-    (ihBR : ∀ r st, BlockRet img ⟨some (r, st), K.routines⟩ f)
+theorem call_user (f : Nat) (ihB : ∀ r st, BlockGoal V img ⟨some (r, st), K.routines⟩ f)
+    (ihBR : ∀ r st, BlockRet V img ⟨some (r, st), K.routines⟩ f)
     (g : String) (ps : List String) (as : Args) (has : SimpleArgs as) (hnr : NoResultReg as)
-    (hnd : ps.Nodup) (rt : Sem.Routine) (hfrag : FragBlock rt.body) (addr : Nat) (nm : String)
+    (hnd : ps.Nodup) (rt : Sem.Routine) (hfrag : FragBlock V rt.body) (addr : Nat) (nm : String)
     (haddr : img.routine? g = some addr)
     (hbody : CodeAt img addr (resolve (genBlock rt.body) addr (0 : Nat) ++ [.end_ nm]))
     (σ s2 : S) (o2 : Outcome) (s : State) (pc : Nat) (stk : Stk)
@@ -1106,9 +1107,9 @@ theorem callRoutine_error (f : Nat) (g : String) (ps : List String) (as : Args) 
 
 
 /-- the call statement: a user routine of the script, or a built-in -/
-theorem stmt_call (f : Nat) (ihB : ∀ r st, BlockGoal img ⟨some (r, st), K.routines⟩ f)
-    (ihBR : ∀ r st, BlockRet img ⟨some (r, st), K.routines⟩ f)
-    (hR : RoutinesAt img K.routines) (g : String) (ps : List String) (as : Args)
+theorem stmt_call (f : Nat) (ihB : ∀ r st, BlockGoal V img ⟨some (r, st), K.routines⟩ f)
+    (ihBR : ∀ r st, BlockRet V img ⟨some (r, st), K.routines⟩ f)
+    (hR : RoutinesAt V img K.routines) (g : String) (ps : List String) (as : Args)
     (has : SimpleArgs as) (hnr : NoResultReg as) (hnd : ps.Nodup) :
     StmtGoal img K (.call g ps as) (f + 2) := by
   intro σ σ' o s pc exit stk sim hpc hc h ho
@@ -1180,15 +1181,15 @@ theorem call_not_ret (f : Nat) (g : String) (ps : List String) (as : Args) (has 
       simp only [Prod.mk.injEq] at h
       exact (callRoutine_error f g ps as has σ _ hcall).2.2 h.1
 
-theorem stmts_ret_zero : StmtsRet img K 0 := by
+theorem stmts_ret_zero : StmtsRet V img K 0 := by
   intro st _ σ σ' s pc exit stk _ _ _ h
   simp [execStmt] at h
 
 /-- `return` reaches out of every compound statement -/
-theorem stmts_ret_step (f : Nat) (ihBR : BlockRet img K f) (ihOs : OperandsRet img K f)
-    (ihL : LoopRet img K f) (ret : Nat) (rest : List Frame) (evc : List Val)
+theorem stmts_ret_step (f : Nat) (ihBR : BlockRet V img K f) (ihOs : OperandsRet V img K f)
+    (ihL : LoopRet V img K f) (ret : Nat) (rest : List Frame) (evc : List Val)
     (hK : K.ret = some (ret, rest, evc)) :
-    StmtsRet img K (f + 1) := by
+    StmtsRet V img K (f + 1) := by
   intro st hst σ σ' s pc exit stk sim hpc hc h
   rcases leaf_not_ret f st hst σ σ' h with ⟨c, t, e, rfl⟩ | ⟨hd, b, rfl⟩ | ⟨k, ops, rfl⟩ | ⟨v, rfl⟩ |
     ⟨g, ps, as, rfl⟩
@@ -1196,7 +1197,7 @@ theorem stmts_ret_step (f : Nat) (ihBR : BlockRet img K f) (ihOs : OperandsRet i
     cases e with
     | none =>
       have hc1 : RvOK c := hst.1
-      have ht1 : FragBlock t := hst.2.1
+      have ht1 : FragBlock V t := hst.2.1
       simp only [execStmt] at h
       split at h
       · rename_i o' hev
@@ -1215,8 +1216,8 @@ theorem stmts_ret_step (f : Nat) (ihBR : BlockRet img K f) (ihOs : OperandsRet i
         · simp [hx] at h
     | some e =>
       have hc1 : RvOK c := hst.1
-      have ht1 : FragBlock t := hst.2.1
-      have he1 : FragBlock e := hst.2.2
+      have ht1 : FragBlock V t := hst.2.1
+      have he1 : FragBlock V e := hst.2.2
       simp only [execStmt] at h
       split at h
       · rename_i o' hev
